@@ -267,10 +267,10 @@ Theorem C10_async_unsub_panic_reachable :
 Proof. exact async_unsub_panic_reachable. Qed.
 Print Assumptions C10_async_unsub_panic_reachable.
 
-(* Observation (reported, not among the known findings because DESIGN 6/C10
-   reads views as snapshots that are outside the property once stale):
-   s := SubBuf(1); v := WithOnly(s); Unsub(s); v.PubSync(1) panics with "send on
-   closed channel", sequentially. The model reproduces the real behaviour. *)
+(* The second known finding (id pubsub-stale-withonly-view-panic), in theorem
+   form: s := SubBuf(1); v := WithOnly(s); Unsub(s); v.PubSync(1) panics with
+   "send on closed channel", sequentially: the view keeps its own copy of the
+   subscription list. This is hypothesis (b) of C10_no_panic_quiesced. *)
 Theorem C10_stale_view_panic_reachable :
   c_panic (run (init 0%Z false 0%Z [[CSubBuf 0 1%Z; CWithOnly 0 (Some 0); CUnsub 0 (Some 0); CPubOne Sync 1 1%Z]])
                (repeat (0, Plain) 9)) = Some SendOnClosed.
